@@ -58,6 +58,62 @@ fn value_of(e: &TEntry) -> Vec<u8> {
     (0..e.vlen as usize).map(|i| h[i % 8] ^ (i / 8) as u8).collect()
 }
 
+/// Boundary-biased cases: one block holding a number of entries around 254/255/256 restart intervals
+/// (the hash index can address at most 254), hash index on.
+pub fn boundary_strategy() -> impl Strategy<Value = TableCase> {
+    (
+        prop_oneof![3 => Just(1u8), 2 => Just(2u8), 1 => Just(3u8), 1 => Just(16u8)],
+        250usize..=258,
+        0usize..17,
+        prop_oneof![Just(0.5f32), Just(1.0f32), Just(4.0f32), Just(8.0f32)],
+        prop_oneof![Just(vec![]), Just(vec![b'k']), vec(any::<u8>(), 1..3)],
+        any::<bool>(),
+        prop_oneof![2 => Just(0u64), 1 => 1u64..1000],
+        vec((any::<u16>(), 0u8..6, any::<u16>(), 0u8..6, vec(any::<bool>(), 0..12)), 0..3),
+    )
+        .prop_map(|(restart, heads, extra, hash_ratio, prefix, pin_index, global_seqno, ranges)| {
+            // `heads` restart intervals: (heads - 1) * restart + 1 ..= heads * restart entries
+            let n = ((heads - 1) * restart as usize + 1 + extra % (restart as usize)).min(5000);
+            let entries = (0..n)
+                .map(|i| {
+                    let mut key = prefix.clone();
+                    key.extend_from_slice(&(i as u16).to_be_bytes());
+                    TEntry {
+                        key,
+                        seqno: (i % 7) as u64,
+                        ty: if i % 11 == 3 { 1 } else { 0 },
+                        vlen: (i % 3) as u32,
+                    }
+                })
+                .collect();
+            TableCase {
+                entries,
+                block_size: 4 * 1024 * 1024,
+                restart,
+                hash_ratio,
+                meta_partition: 4096,
+                part_index: false,
+                part_filter: false,
+                filter: FilterSpec::Bpk(10.0),
+                data_lz4: false,
+                index_lz4: false,
+                pin_filter: true,
+                pin_index,
+                cache_bytes: 16 << 20,
+                fd: Some(10),
+                global_seqno,
+                ranges,
+            }
+        })
+}
+
+pub fn mixed_strategy(max_entries: usize) -> impl Strategy<Value = TableCase> {
+    prop_oneof![
+        9 => strategy(max_entries).boxed(),
+        1 => boundary_strategy().boxed(),
+    ]
+}
+
 pub fn strategy(max_entries: usize) -> impl Strategy<Value = TableCase> {
     // keys: common prefix + suffix; versions per key 1..8
     let prefix = prop_oneof![
